@@ -165,9 +165,14 @@ def metricsSpec (toks : List String) : Option String := do
     | "noalpn" => "1/"
     | _ => "0/"
   let labels := kinds.map label
-  let keys := ["0/", "1/", "1/h2", "1/http/1.1"].filter fun k => labels.contains k
-  let parts := keys.map fun k => s!"{k}={labels.count k}"
-  pure (s!"accepted={kinds.length} closed={kinds.length} " ++ " ".intercalate parts)
+  let vec := fun (ls : List String) (sep : String) =>
+    sep.intercalate ((["0/", "1/", "1/h2", "1/http/1.1"].filter fun k => ls.contains k).map fun k => s!"{k}={ls.count k}")
+  -- connections held open while a sample is taken are counted only when they end
+  let held := match kv toks "hold" with
+    | some h => (h.splitOn ",").map fun k => if k == "h2" then "1/h2" else "1/http/1.1"
+    | none => []
+  let n := kinds.length + held.length
+  pure (s!"accepted={n} closed={n} " ++ vec (labels ++ held) " " ++ (if held.isEmpty then "" else " while-open:" ++ vec labels ","))
 
 /-- C07 oracle (two-phase): every value a handler observed must be the fingerprint of the connection's history
 at ONE instant not earlier than the request's own HEADERS; anything else is printed as TORN. -/
@@ -294,7 +299,8 @@ def handle (cmd : String) (args : List String) : String :=
     let infl := (kv toks "inflight") == some "1" && (kv toks "early") != some "1"
     let held := (kv toks "hold") == some "1" && (kv toks "early") != some "1"
     "ret=errclosed fast=1 listener=closed post=refused h1idle=closed inflight=" ++ (if infl then "done" else "n/a") ++
-      " drain=" ++ (if infl then "ok" else "n/a") ++ " during=" ++ (if held then "refused" else "n/a")
+      " drain=" ++ (if infl then "ok" else "n/a") ++ " during=" ++ (if held then "refused" else "n/a") ++
+      " counted=" ++ (if (kv toks "early").getD "0" == "1" then "n/a" else "ok")
   | "life", _ => "closed=1 released=1"    -- C11: the proxy cut / released the connection
   | "certrace", toks => "ok last=" ++ (kv toks "n").getD "?"   -- C14: no torn pair under concurrent handshakes; converges to the last update
   | "cert", toks => (certRun true toks).getD "bad-op"
@@ -308,9 +314,28 @@ def handle (cmd : String) (args : List String) : String :=
   | "h2tx", toks => (h2txRun toks).getD "bad-op"
   | "h2stx", toks => (h2stxSpec toks).getD "bad-op"
   -- C08: a request body ended by a trailing HEADERS frame reaches the backend whole and the exchange completes
+  -- C15: a boolean switch read from the environment: "true" / "false" in any letter case, anything else (or unset) = default
+  | "envbool", toks =>
+    let d := (kv toks "def").getD "0" == "1"
+    match kv toks "val" with
+    | some "-" | none => if d then "1" else "0"
+    | some h =>
+      match unhex h with
+      | some b =>
+        let low := b.map fun c => if 65 ≤ c.toNat ∧ c.toNat ≤ 90 then c + 32 else c
+        if low == Fp.strBytes "true" then "1" else if low == Fp.strBytes "false" then "0" else (if d then "1" else "0")
+      | none => "bad-op"
+  -- C12: every DATA byte sent counts against the connection window and comes back, whatever happened to its stream
+  | "rxblocked", toks =>
+    let up := ((kv toks "up").bind String.toNat?).getD 0
+    let fr := ((kv toks "frame").bind String.toNat?).getD 16384
+    let fr := if fr = 0 ∨ fr > 16384 then 16384 else fr
+    let sent := ((up * 1024 + fr - 1) / fr) * fr
+    s!"sent={sent} credit=returned"
   | "passtr", toks => s!"st=200 resp=complete backend={(kv toks "body").getD "?"}:{(kv toks "sum").getD "?"}"
   -- C17 at the level of the binary: SIGINT / SIGTERM cancel the context: the process leaves by itself (Serve and then Run
   -- returned), idle connections were closed, the exchange in flight was completed
+  | "shutdown2", _ => "ret1=errclosed ret2=errclosed ln1=closed ln2=closed"   -- C17 with two listeners on one server
   | "binsig", _ => "exit=0 idle=closed inflight=complete"
   | "rw", toks => (rwModel toks).getD "bad-op"
   | "rwspec05", toks => (rwSpec05 toks).getD "bad-op"
